@@ -141,7 +141,8 @@ def build_grid(case):
         for ek in case.get("earlier", []):
             rng = np.random.Generator(np.random.Philox(key=int(ek)))
             pe = dict(case["pose"], mode="generic", quat=list(rng.normal(size=4)), angle=float(rng.uniform(-3.0, 3.0)),
-                      center=list(rng.uniform(-2.0, 2.0, size=3)), omega=list(rng.uniform(-4.0, 4.0, size=3)), omega_zero=False)
+                      center=list(rng.uniform(-2.0, 2.0, size=3)), omega=list(rng.uniform(-4.0, 4.0, size=3)), omega_zero=False,
+                      V=list(rng.uniform(-3.0, 3.0, size=3)), at_rest=False)  # earlier states always move
             bodies.apply_pose(body, pe)
             _exercise(g, body, True, case.get("earlier_order", "pos_vel"))
         Q = bodies.apply_pose(body, case["pose"])  # pose set only after the grid exists
